@@ -120,3 +120,54 @@ def register_mte(reg):
         ],
         properties=["C01"], modular=False, bounded="<= 2 further reference derivatives of J; quadrilateral and hexahedron",
         mutants=[("ld = tuple(sorted((d,) + ld))", "ld = tuple(sorted(ld))")]))
+
+
+def register_offsets(reg):
+    """build_optimized_tables, the offset fragment (C02, C05): the dof offset of a table reference is the component's
+    offset inside the element, plus the element dimension iff the terminal is a '-' restricted FORM ARGUMENT (geometry
+    terminals get their '-' offset in definitions/access, not here); block size is the component stride."""
+    import types
+
+    import basix.ufl
+    import ufl
+    import z3
+
+    from pyvc.contract import Const, Custom, fragment
+    from pyvc.values import SV
+
+    cache = {}
+
+    def terminals():
+        if not cache:
+            mesh = ufl.Mesh(basix.ufl.element("Lagrange", "triangle", 1, shape=(2,)))
+            V = ufl.FunctionSpace(mesh, basix.ufl.element("Lagrange", "triangle", 1))
+            cache["t"] = [ufl.Coefficient(V), ufl.TestFunction(V), ufl.TrialFunction(V), ufl.SpatialCoordinate(mesh), ufl.Jacobian(mesh),
+                          ufl.classes.ReferenceValue(ufl.Coefficient(V)).ufl_operands[0]]
+        return cache["t"]
+
+    def mk_mt(interp, name):
+        ts = terminals()
+        t = ts[interp.ctx.decide(len(ts), "terminal class")]
+        r = [None, "+", "-"][interp.ctx.decide(3, "restriction")]
+        return types.SimpleNamespace(terminal=t, restriction=r)
+
+    def mk_element(interp, name):
+        d = SV(z3.Int("element_dim"), "int")
+        interp.ctx.assume(d.z >= 1)
+        return types.SimpleNamespace(dim=d)
+
+    def mk_t(interp, name):
+        o, st = SV(z3.Int("component_offset"), "int"), SV(z3.Int("component_stride"), "int")
+        interp.ctx.assume(z3.And(o.z >= 0, st.z >= 1))
+        return dict(offset=o, stride=st, array=None)
+
+    frag = fragment("ffcx/ir/elementtables.py::build_optimized_tables", "if mt.restriction == '-' and isinstance(mt.terminal, ufl.classes.FormArgument):",
+                    last="block_size = t[", params=["mt", "element", "t", "cell_offset"], returns="(offset, block_size)", name="build_optimized_tables#offset")
+    reg.add(Contract(
+        "ffcx/ir/elementtables.py::build_optimized_tables", dict(mt=Custom(mk_mt), element=Custom(mk_element), t=Custom(mk_t), cell_offset=Const(0)), fn=frag,
+        ensures=["result[0] == t['offset'] + (element.dim if (mt.restriction == '-' and is_form_argument(mt.terminal)) else 0)",
+                 "result[1] == t['stride']"],
+        properties=["C02", "C05", "C08"], modular=False, name="build_optimized_tables#offset",
+        mutants=[("cell_offset = element.dim", "cell_offset = t['stride'] * element.dim"),
+                 ("mt.restriction == '-' and isinstance(mt.terminal, ufl.classes.FormArgument)", "mt.restriction == '-'"),
+                 ("offset = cell_offset + t['offset']", "offset = cell_offset")]))
